@@ -41,11 +41,7 @@ func (ck *Check) updateSites(rule string) []*updSite {
 			continue
 		}
 		us := &updSite{fn: w.Fn, ctx: ck.P.NewCtx(w.Fn), upd: w.Call.(*ssa.Call)}
-		for _, r := range ck.A.R {
-			if r.Fn == w.Fn && r.Method == "Get" {
-				us.get = r.Call.(*ssa.Call)
-			}
-		}
+		us.get = ck.getCallIn(w.Fn)
 		key := ck.P.siteKey(w.Call)
 		if w.Fn != ck.A.AddTaint && w.Fn != ck.A.DelTaint {
 			ck.fail("C15.R7", key, ck.P.instrPos(w.Call), funcID(w.Fn), "Node updates are issued only by AddToBeRemovedTaint and DeleteToBeRemovedTaint", funcID(w.Fn), "another function rewrites Node objects")
@@ -320,13 +316,17 @@ func (ck *Check) addedTaint(rule string, us *updSite) {
 				if ec == FTrue && len(b.Preds[i].Preds) == 1 {
 					ec = ctx.edgeCond(b.Preds[i].Preds[0], b.Preds[i])
 				}
+				// decided arithmetically, so that len(e) > 0, len(e) != 0, len(e) == 0 (inverted) all read the same
+				ln := lenOf("len", paramTerm(prm))
+				zero, one := zeroTerm(types.Typ[types.Int]), intConstTermTyped(1, types.Typ[types.Int])
+				_ = nonEmpty
 				switch {
 				case et.Kind == "const" && et.Name == `"NoSchedule"`:
-					if imp, _, _ := Entails(ec, Not(nonEmpty)); !imp {
+					if imp, _, err := ctx.EntailsLinear(ec, []LinFact{{A: ln, B: zero, K: 0, Text: "len(effect) ≤ 0"}}); err != nil || !imp {
 						okE = false
 					}
 				case et.Key() == paramTerm(prm).Key():
-					if imp, _, _ := Entails(ec, nonEmpty); !imp {
+					if imp, _, err := ctx.EntailsLinear(ec, []LinFact{{A: one, B: ln, K: 0, Text: "1 ≤ len(effect)"}}); err != nil || !imp {
 						okE = false
 					}
 				default:
@@ -615,6 +615,12 @@ func (ck *Check) filterPredicates(rule func(n int) string) {
 		present := Atom(&Term{Kind: "extract", Name: "1", Args: []*Term{lk}})
 		equal := cmpFormula(token.EQL, &Term{Kind: "extract", Name: "0", Args: []*Term{lk}}, &Term{Kind: "const", Name: `"file"`})
 		okv, why, _ := Equivalent(got, And(present, equal))
+		if !okv {
+			// plain index form: a missing key reads as "", which is not "file"
+			if alt, _, _ := Equivalent(got, cmpFormula(token.EQL, lk, &Term{Kind: "const", Name: `"file"`})); alt {
+				okv, why = true, ""
+			}
+		}
 		ck.cond(okv, rule(4), "PodIsStatic", ck.P.position(isStatic.Pos()), funcID(isStatic), `static ⇔ annotations["kubernetes.io/config.source"] = "file"`, got.String(), why)
 	}
 	// R5 listers
@@ -1189,6 +1195,9 @@ func (ck *Check) nodeListImmutability(rule string) {
 		case *ssa.Extract:
 			if c, ok := x.Tuple.(*ssa.Call); ok {
 				if f := c.Common().StaticCallee(); f != nil && ck.P.inRepo(f) {
+					if x.Index == 0 && ck.fetchHelper(f, 0) {
+						return "" // a helper that hands out the object it just fetched from the server
+					}
 					return "result of " + calleeName(c)
 				}
 			}
@@ -1307,12 +1316,8 @@ func (ck *Check) writeConfirmed(rule string, fn *ssa.Function) {
 		return
 	}
 	ctx := ck.P.NewCtx(fn)
-	var get, upd *ssa.Call
-	for _, r := range ck.A.R {
-		if r.Fn == fn && r.Method == "Get" {
-			get, _ = r.Call.(*ssa.Call)
-		}
-	}
+	var upd *ssa.Call
+	get := ck.getCallIn(fn)
 	for _, w := range ck.A.W {
 		if w.Fn == fn && w.Class == "W-K8S-UPD" {
 			upd, _ = w.Call.(*ssa.Call)
@@ -1376,7 +1381,7 @@ func (ck *Check) writeConfirmed(rule string, fn *ssa.Function) {
 			ck.entails(rule, key+"/written", r, pc, updOK, "after the Update, a nil error is returned only if the Update succeeded")
 		}
 	}
-	ck.floor(rule, "success returns of "+fn.Name(), n, 2)
+	ck.floor(rule, "success returns of "+fn.Name(), n, 1)
 }
 
 // errorConstructor: v is the result of fmt.Errorf / errors.New / pkg/errors constructors (possibly
@@ -1618,4 +1623,75 @@ func foldCmp(at *Term) *Formula {
 		}
 	}
 	return Atom(at)
+}
+
+// fetchHelper: h returns (object, error) where every return with a nil error hands out an object
+// freshly fetched from the API server in the same call (result 0 of the typed client's Get, or of
+// another fetch helper), and every other return carries a non-nil error.
+func (ck *Check) fetchHelper(h *ssa.Function, depth int) bool {
+	if h == nil || h.Blocks == nil || depth > 2 || h.Signature.Results().Len() != 2 || !isErrorType(h.Signature.Results().At(1).Type()) {
+		return false
+	}
+	fresh := func(v ssa.Value) bool {
+		ex, ok := v.(*ssa.Extract)
+		if !ok || ex.Index != 0 {
+			return false
+		}
+		c, ok := ex.Tuple.(*ssa.Call)
+		if !ok {
+			return false
+		}
+		if c.Common().IsInvoke() {
+			cls, _ := classifyExternal(c.Common().Value.Type(), c.Common().Method.Name())
+			return c.Common().Method.Name() == "Get" && strings.Contains(cls, "K8S") || c.Common().Method.Name() == "Get" && strings.HasSuffix(c.Common().Value.Type().String(), "NodeInterface")
+		}
+		if g := c.Common().StaticCallee(); g != nil && ck.P.inRepo(g) {
+			return ck.fetchHelper(g, depth+1)
+		}
+		return false
+	}
+	ctx := ck.P.NewCtx(h)
+	good := 0
+	for _, b := range h.Blocks {
+		r, ok := b.Instrs[len(b.Instrs)-1].(*ssa.Return)
+		if !ok {
+			continue
+		}
+		if f, ok := ctx.nilDecided(r.Results[1], 0); ok && f == FFalse {
+			continue // an error return
+		}
+		if k, ok := r.Results[1].(*ssa.Const); ok && k.IsNil() && fresh(r.Results[0]) {
+			good++
+			continue
+		}
+		// `return obj, err` forwarding both results of the fetch itself
+		if ex, ok := r.Results[1].(*ssa.Extract); ok && ex.Index == 1 && fresh(r.Results[0]) {
+			if e0, ok := r.Results[0].(*ssa.Extract); ok && e0.Tuple == ex.Tuple {
+				good++
+				continue
+			}
+		}
+		return false
+	}
+	return good > 0
+}
+
+// getCallIn: the call in fn that fetches the node from the server: the typed client's Get, or a
+// call of a fetch helper.
+func (ck *Check) getCallIn(fn *ssa.Function) *ssa.Call {
+	for _, r := range ck.A.R {
+		if r.Fn == fn && r.Method == "Get" {
+			if c, ok := r.Call.(*ssa.Call); ok {
+				return c
+			}
+		}
+	}
+	for _, ci := range callsIn(fn, nil) {
+		if c, ok := ci.(*ssa.Call); ok {
+			if h := c.Common().StaticCallee(); h != nil && ck.P.inRepo(h) && ck.fetchHelper(h, 0) {
+				return c
+			}
+		}
+	}
+	return nil
 }
